@@ -16,7 +16,7 @@ def run(res, args):
     if not ok:
         return res.finish()
     rng = common.rng_for(res.seed, "c12")
-    mult = 1 if res.tier == "quick" else 8
+    mult = 1 if res.tier == "quick" else 40
     if not (res.proof_ok and res.corr_ok):
         mult *= 5
     items = []
